@@ -219,6 +219,12 @@ Definition c07_check (c : ecase) : option string :=
                   negb (forallb (fun d => match snd d with Some raw => (o_threshold o <=? raw)%Z | None => false end) docs)
                then Some "threshold"
           else if negb (non_increasing (map snd on)) then Some "best_first"
+          else if negb ((fix dec (l : list (option Z)) : bool :=
+                           match l with
+                           | Some a :: ((Some b :: _) as r) => (b <=? a)%Z && dec r
+                           | _ :: r => dec r
+                           | [] => true end) (map snd docs))
+               then Some "best_match_first"     (* by match quality itself, not only by the clamped score *)
           else if Z.eqb (o_threshold o) 0 && ascii_only (k_q c) && negb (match k_q c with [] => true | _ => false end) &&
                   existsb (fun d => eligible (env_of c) (eff_limit o) d && subseq_fold (k_q c) (fuzzy_text d) &&
                                     ascii_only (fuzzy_text d)) (k_cmds c) &&
